@@ -680,9 +680,9 @@ def _mm_inputs(d):
             gtf.append("chr9\tsyn\texon\t%d\t%d\t.\t+\t.\tgene_id \"%s\"; transcript_id \"%s.t1\";" % (a, b, gid, gid))
     open(os.path.join(d, "mm.gtf"), "w").write("\n".join(gtf) + "\n")
 
-    def rec(name, ex, flag):
+    def rec(name, ex, flag, mapq=60):
         a = pysam.AlignedSegment(inp.header)
-        a.query_name, a.flag, a.reference_id, a.reference_start, a.mapping_quality = name, flag, tid, ex[0][0] - 1, 60
+        a.query_name, a.flag, a.reference_id, a.reference_start, a.mapping_quality = name, flag, tid, ex[0][0] - 1, mapq
         cig, s_ = [], ""
         for i, (x, y) in enumerate(ex):
             if i:
@@ -697,6 +697,8 @@ def _mm_inputs(d):
     # an assigned primary alignment plus a secondary alignment that lands between the genes (intergenic / uninformative): the stray one loses
     stray = [(base + 6000, base + 6200), (base + 7000, base + 7300)]
     recs += [rec("mm_stray", A, 0), rec("mm_stray", stray, 256)]
+    # equal-score placements as the aligner writes them: MAPQ 0 on the primary and on the secondary record - the primary flag decides, not MAPQ
+    recs += [rec("mm_q0", A, 0, 0), rec("mm_q0", B, 256, 0)]
     with pysam.AlignmentFile(os.path.join(d, "mm.bam"), "wb", template=inp) as out:
         for a in sorted(recs, key=lambda x: x.reference_start):
             out.write(a)
@@ -731,13 +733,14 @@ def _mm_pipeline_problems():
         finally:
             shutil.rmtree(d, ignore_errors=True)
     for mode, (rows, counts) in tables.items():
-        for read, winner, loser in (("mm_primA", "mmA.t1", "mmB.t1"), ("mm_primB", "mmB.t1", "mmA.t1"), ("mm_stray", "mmA.t1", "an intergenic position")):
+        for read, winner, loser in (("mm_primA", "mmA.t1", "mmB.t1"), ("mm_primB", "mmB.t1", "mmA.t1"), ("mm_stray", "mmA.t1", "an intergenic position"),
+                                    ("mm_q0", "mmA.t1", "mmB.t1")):
             mine = [r for r in rows if r[0] == read]
             if [r[1] for r in mine] != [winner]:
                 problems.append("[%s] %s (primary on %s, secondary on %s) is reported as %s: the uniquely assigned primary alignment must win "
                                 "and the secondary one be suppressed" % (mode, read, winner, loser, [(r[1], r[2]) for r in mine]))
-        if abs(sum(counts.values()) - 9) > 1e-6 or abs(counts.get("mmA.t1", 0) - 5) > 1e-6:
-            problems.append("[%s] transcript counts %s: 9 reads expected, 5 for mmA.t1 and 4 for mmB.t1 (no read contributes more than 1)" % (mode, counts))
+        if abs(sum(counts.values()) - 10) > 1e-6 or abs(counts.get("mmA.t1", 0) - 6) > 1e-6:
+            problems.append("[%s] transcript counts %s: 10 reads expected, 6 for mmA.t1 and 4 for mmB.t1 (no read contributes more than 1)" % (mode, counts))
     if len(tables) == 2 and tables["default"] != tables["--high_memory"]:
         problems.append("default and --high_memory disagree: %s vs %s" % (tables["default"][1], tables["--high_memory"][1]))
     return problems
@@ -749,10 +752,63 @@ def replay_mm_pipeline(d):
 
 
 @bounded("C08.pipeline_modes", ["C08"], note="two real pipeline runs (default and --high_memory) on a synthetic two-gene locus with reads whose primary "
-         "and secondary alignments lie on the same chromosome: the uniquely assigned primary wins, the secondary is suppressed in "
+         "and secondary alignments lie on the same chromosome (MAPQ 60, and MAPQ 0 on both records): the uniquely assigned primary wins, the secondary is suppressed in "
          "read_assignments and counts, every read counts once, and both modes agree")
 def c08_pipeline(tier, rng):
     p = _mm_pipeline_problems()
     viol = [{"obligation": "C08.pipeline_modes", "inputs": {"scenario": "primary+secondary on one chromosome"}, "observed": p[:4],
              "required": "primary wins, losers suppressed, modes agree", "replay_call": "contracts.c_multimap:replay_mm_pipeline"}] if p else []
-    return {"cases": 2, "bound": "2 pipeline runs, 9 reads", "violations": viol, "samples": [{"read": "mm_primA"}]}
+    return {"cases": 2, "bound": "2 pipeline runs, 10 reads", "violations": viol, "samples": [{"read": "mm_primA"}]}
+
+
+# ---- which records the resolver takes for primary: the one field that carries the BAM flag into the compact record ---------------------------------
+@finite("C08.primary_flag_wiring", ["C08"], note="the expression assigned to read_assignment.multimapper in AlignmentCollector.process_genic / "
+        "process_intergenic (extracted from the source on every run; MultimapResolver reads `not multimapper` as 'primary alignment') evaluated on "
+        "every combination of the secondary / supplementary flags, MAPQ in {0,1,5,60} and strand: it is True exactly for a secondary record")
+def c08_primary_flag(tier, rng):
+    import ast, itertools, types
+    from pyvc import front
+    src = open(front.REPO + "/src/alignment_processor.py").read()
+    cls = [n for n in ast.parse(src).body if isinstance(n, ast.ClassDef) and n.name == "AlignmentCollector"][0]
+    obl = dis = 0
+    viol = []
+    for method in ("process_genic", "process_intergenic"):
+        fn = [n for n in cls.body if isinstance(n, ast.FunctionDef) and n.name == method][0]
+        exprs = [n.value for n in ast.walk(fn) if isinstance(n, ast.Assign) and len(n.targets) == 1 and ast.unparse(n.targets[0]).endswith(".multimapper")]
+        if len(exprs) != 1:
+            raise front.Missing("exactly one assignment to .multimapper expected in %s, found %d" % (method, len(exprs)))
+        code = compile(ast.Expression(exprs[0]), "<%s multimapper>" % method, "eval")
+        for sec, sup, mapq, rev in itertools.product((False, True), (False, True), (0, 1, 5, 60), (False, True)):
+            obl += 1
+            aln = types.SimpleNamespace(is_secondary=sec, is_supplementary=sup, mapping_quality=mapq, is_reverse=rev, is_unmapped=False,
+                                        flag=(256 if sec else 0) | (2048 if sup else 0) | (16 if rev else 0))
+            try:
+                got = eval(code, {"alignment": aln})
+            except Exception as e:
+                viol.append({"obligation": "C08.primary_flag_wiring.%s" % method, "inputs": None, "observed": "not evaluable: %r" % e,
+                             "required": "evaluable", "undecided": True})
+                break
+            if bool(got) != sec:
+                if len(viol) < 4:
+                    viol.append({"obligation": "C08.primary_flag_wiring.%s" % method,
+                                 "inputs": {"method": method, "is_secondary": sec, "is_supplementary": sup, "mapping_quality": mapq, "is_reverse": rev},
+                                 "observed": "%s -> multimapper = %r" % (ast.unparse(exprs[0]), got), "required": "multimapper == is_secondary",
+                                 "replay_call": "contracts.c_multimap:replay_primary_flag"})
+            else:
+                dis += 1
+    return {"obligations": obl, "discharged": dis, "violations": viol, "cases": obl, "exhaustive": True,
+            "bound": "2 methods x 2 x 2 x 4 x 2 records", "samples": [{"is_secondary": False, "mapping_quality": 0}]}
+
+
+def replay_primary_flag(d):
+    import ast, types
+    from pyvc import front
+    i = d["inputs"]
+    src = open(front.REPO + "/src/alignment_processor.py").read()
+    cls = [n for n in ast.parse(src).body if isinstance(n, ast.ClassDef) and n.name == "AlignmentCollector"][0]
+    fn = [n for n in cls.body if isinstance(n, ast.FunctionDef) and n.name == i["method"]][0]
+    e = [n.value for n in ast.walk(fn) if isinstance(n, ast.Assign) and len(n.targets) == 1 and ast.unparse(n.targets[0]).endswith(".multimapper")][0]
+    aln = types.SimpleNamespace(is_secondary=i["is_secondary"], is_supplementary=i["is_supplementary"], mapping_quality=i["mapping_quality"],
+                                is_reverse=i["is_reverse"], is_unmapped=False, flag=0)
+    got = eval(compile(ast.Expression(e), "<m>", "eval"), {"alignment": aln})
+    return bool(got) == i["is_secondary"], "%s: %s -> %r for %s" % (i["method"], ast.unparse(e), got, i)
